@@ -1,16 +1,40 @@
 (* PropsC06.v — C06: Struct -> Config -> struct is the identity.
    Statements only; proofs are in ProofsReify.v.
 
-   PARTIAL: proved is the leaf of the round trip - a bool, a string, a signed or unsigned
-   integer of any width up to 64 bits and a float64 that is no NaN, stored as normalization
-   stores it, converts back to exactly the same value.  NOT proved: the round trip of whole
-   struct values (tags, inline, nesting, collections), float32 and durations (the latter
-   travel as text through time.Duration.String / time.ParseDuration, oracles supplied by the
-   harness).  They are decided by the correspondence run (model of Merge-from-struct and
-   Unpack against the implementation, and the round-trip equality on the implementation's
-   own results).  F15 is the known deviation. *)
-From Ucfg Require Import Base ParseInt Consts Field Tree PathOps Merge OTree F64 Conv Reify ProofsReify.
+   PARTIAL.  Proved: EVERY flat struct - any number of exported fields of the kinds bool, string,
+   signed and unsigned integers of every width up to 64 bits, float64 (no NaN), with distinct
+   names - merged into an empty config and unpacked into a zero value of the same type comes
+   back identical (Normalize.v composed with Reify.v); and the leaf of that round trip.
+   NOT proved: config tags (renames, dotted names, inline, ignore), nested structs, pointers,
+   collections, float32 and durations (the latter travel as text through
+   time.Duration.String / time.ParseDuration, oracles supplied by the harness).  They are
+   decided by the correspondence run (model of Merge-from-struct and Unpack against the
+   implementation, and the round-trip equality on the implementation's own results).  F15 is
+   the known deviation. *)
+From Ucfg Require Import Base ParseInt Consts Field Tree PathOps Merge OTree F64 Conv VarParse Normalize Reify
+     ProofsNormData ProofsReify ProofsRoundStruct.
 Local Open Scope Z_scope.
+
+Theorem c06_flat_struct_roundtrip_partial : forall o ro f2 fs,
+  r_p ro = n_p o -> p_sep (n_p o) = "" -> n_varexp o = false ->
+  Forall (field_ok o) fs -> NoDup (map key_of fs) ->
+  exists cfg, normalize_value o (gstruct fs) = Ok (cfg, None) /\
+              reify_struct (S (S (S f2))) ro (TStruct (tfields fs)) (GStructV (zfields fs)) cfg
+              = Ok (GStructV (vfields fs)).
+Proof. exact flat_struct_roundtrip. Qed.
+Print Assumptions c06_flat_struct_roundtrip_partial.
+
+Theorem c06_flat_struct_example :
+  let o := {| n_p := {| p_sep := ""; p_maxIdx := 1024; p_numKeys := false; p_escape := false |};
+              n_varexp := false; n_m := {| m_h := 0%N; m_ft := None |} |} in
+  let fs := [ {| f_go := "Name"; f_kind := KString; f_val := CS "a.b,${c}" |};
+              {| f_go := "Max"; f_kind := KUint 64; f_val := CU 18446744073709551615 |};
+              {| f_go := "Min"; f_kind := KInt 8; f_val := CI (-128) |};
+              {| f_go := "On"; f_kind := KBool; f_val := CB true |};
+              {| f_go := "Ratio"; f_kind := KFloat64; f_val := CF 4602678819172646912 |} ] in
+  Forall (field_ok o) fs /\ NoDup (map key_of fs).
+Proof. exact flat_struct_example. Qed.
+Print Assumptions c06_flat_struct_example.
 
 Theorem c06_primitive_roundtrip_partial : forall ft dur k c, fits k c -> conv ft dur k (stored c) = Ok c.
 Proof. exact prim_roundtrip. Qed.
